@@ -7,7 +7,7 @@ from ..function import Function
 from ..number import Context
 from ..primitive import Primitive
 from .call_graph import CallGraph
-from .define_use import AssignDef, DefineUse, DefineUseAnalysis
+from .define_use import AssignDef, DefineUse, DefineUseAnalysis, PhiDef
 
 
 class _ImpureError(Exception):
@@ -66,9 +66,50 @@ class _Purity(DefaultVisitor):
     def _visit_indexed_assign(self, stmt: IndexedAssign, ctx: None):
         super()._visit_indexed_assign(stmt, ctx)
         d = self.def_use.find_def_from_use(stmt)
-        if isinstance(d, AssignDef) and isinstance(d.site, Argument | FuncDef):
-            # modifying an argument or a free variable
+        if not self._is_local_list(d, len(stmt.indices), set()):
+            # (possibly) modifying an argument or a free variable
             raise _ImpureError(f'Impure: Indexed assignment {stmt}')
+
+    def _is_local_list(self, d, depth: int, seen: set) -> bool:
+        """
+        Is the list bound by `d` certainly allocated by this function, down
+        to the `depth` levels an indexed assignment reaches into it?
+        An argument or free variable may be reached under another name
+        (`ys = xs`), through a loop phi, or after an earlier `xs[i] = e`.
+        """
+        if id(d) in seen:
+            return True
+        seen.add(id(d))
+        match d:
+            case PhiDef():
+                return (
+                    self._is_local_list(self.def_use.defs[d.lhs], depth, seen)
+                    and self._is_local_list(self.def_use.defs[d.rhs], depth, seen)
+                )
+            case AssignDef(site=IndexedAssign()):
+                return d.prev is not None and self._is_local_list(self.def_use.defs[d.prev], depth, seen)
+            case AssignDef(site=Assign()) if isinstance(d.site.target, NamedId):
+                return self._is_fresh_list(d.site.expr, depth, seen)
+            case _:
+                # arguments, free variables, loop variables, tuple patterns, ...
+                return False
+
+    def _is_fresh_list(self, e: Expr, depth: int, seen: set) -> bool:
+        match e:
+            case Var():
+                return self._is_local_list(self.def_use.find_def_from_use(e), depth, seen)
+            case ListExpr():
+                return depth <= 1 or all(self._is_fresh_list(elt, depth - 1, seen) for elt in e.elts)
+            case ListComp():
+                return depth <= 1 or self._is_fresh_list(e.elt, depth - 1, seen)
+            case Empty():
+                return True
+            case Range1() | Range2() | Range3():
+                return depth <= 1
+            case ListSlice():
+                return depth <= 1
+            case _:
+                return False
 
 
 class Purity:
